@@ -93,21 +93,27 @@ pub fn twin<S: Src>(s: &mut S) {
     assert!(false, "TWIN");
 }
 
-/// C12-L2 / C01: `MulShiftedValue::which_power_of_2(2^k) == Some(k)` for every k, `None` for 0 and for
-/// every non-power of two among {2^k + 2^j}.  The divider core is specialised exactly for divisor 2
-/// (`stubs::udivmod4_by_two`); the loop runs at most 256 times.
-pub fn pow2_which<S: Src>(s: &mut S) {
+/// C12-L2: `MulShiftedValue::which_power_of_2(2^k) == Some(k)` for every k.  The divider core is specialised exactly
+/// for divisor 2 (`stubs::udivmod4_by_two`); the loop runs at most 256 times.
+pub fn pow2_exact<S: Src, const MAXK: u16>(s: &mut S) {
     use storage_layout_extractor::tc::lift::mul_shifted::MulShiftedValue;
     let k = s.u16();
-    s.assume(k < 256);
+    s.assume(k < MAXK);
     let w = crate::model::ONE.shl(W::new(0, k as u128));
     let got = MulShiftedValue::which_power_of_2(kw(w));
     s.reached();
     assert!(got == Some(k as usize), "C12 pow2: which_power_of_2(2^k) is not k");
-    let j = s.u16();
-    s.assume(j < k);
-    let w2 = w.or(crate::model::ONE.shl(W::new(0, j as u128)));
-    let got2 = MulShiftedValue::which_power_of_2(kw(w2));
-    assert!(got2.is_none(), "C12 pow2: a non-power of two is reported as a power of two");
     assert!(MulShiftedValue::which_power_of_2(kw(crate::model::ZERO)).is_none(), "C12 pow2: zero is reported as a power of two");
+}
+
+/// C12-L2: numbers with exactly two bits set (2^k + 2^j, j < k) are not powers of two.
+pub fn pow2_rejects<S: Src, const MAXK: u16>(s: &mut S) {
+    use storage_layout_extractor::tc::lift::mul_shifted::MulShiftedValue;
+    let k = s.u16();
+    let j = s.u16();
+    s.assume(k < MAXK && j < k);
+    let w2 = crate::model::ONE.shl(W::new(0, k as u128)).or(crate::model::ONE.shl(W::new(0, j as u128)));
+    let got = MulShiftedValue::which_power_of_2(kw(w2));
+    s.reached();
+    assert!(got.is_none(), "C12 pow2: a non-power of two is reported as a power of two");
 }
